@@ -189,21 +189,29 @@ func (r *FeatureLocal) addPendingApproval(msg *api.Message) {
 
 	ski := msg.DeviceRemote.Ski()
 
+	// the timer is armed while the lock is held, so it can not fire before the entry is stored
+	r.muxResponseCB.Lock()
+	defer r.muxResponseCB.Unlock()
+
 	newTimer := time.AfterFunc(r.writeTimeout, func() {
+		// only whoever removes the pending entry answers the write
 		r.muxResponseCB.Lock()
+		_, pending := r.pendingWriteApprovals[ski][*msg.RequestHeader.MsgCounter]
 		delete(r.pendingWriteApprovals[ski], *msg.RequestHeader.MsgCounter)
 		r.muxResponseCB.Unlock()
+
+		if !pending {
+			return
+		}
 
 		err := model.NewErrorTypeFromString("write not approved in time by application")
 		_ = msg.FeatureRemote.Device().Sender().ResultError(msg.RequestHeader, r.Address(), err)
 	})
 
-	r.muxResponseCB.Lock()
 	if _, ok := r.pendingWriteApprovals[ski]; !ok {
 		r.pendingWriteApprovals[ski] = make(map[model.MsgCounterType]*time.Timer)
 	}
 	r.pendingWriteApprovals[ski][*msg.RequestHeader.MsgCounter] = newTimer
-	r.muxResponseCB.Unlock()
 }
 
 func (r *FeatureLocal) ApproveOrDenyWrite(msg *api.Message, err model.ErrorType) {
@@ -243,13 +251,18 @@ func (r *FeatureLocal) ApproveOrDenyWrite(msg *api.Message, err model.ErrorType)
 		}
 	}
 
-	timer.Stop()
-
 	delete(r.writeApprovalReceived[ski], *msg.RequestHeader.MsgCounter)
 
 	r.muxResponseCB.Lock()
 	defer r.muxResponseCB.Unlock()
+
+	// only whoever removes the pending entry answers the write,
+	// the timeout may have done so in the meantime
+	if _, pending := r.pendingWriteApprovals[ski][*msg.RequestHeader.MsgCounter]; !pending {
+		return
+	}
 	delete(r.pendingWriteApprovals[ski], *msg.RequestHeader.MsgCounter)
+	timer.Stop()
 
 	if err.ErrorNumber == 0 {
 		r.processWrite(msg)
